@@ -149,7 +149,6 @@ SETUP_MENU[C.GOCEAN_ALG] = ["RaisePSyIR2AlgTrans"]
 # ----------------------------------------------------------------------
 # strategies
 # ----------------------------------------------------------------------
-@st.composite
 ROT = [0]     # set per shard in run(): Hypothesis always starts with the
 #               'simplest' example (first element of every sampled_from);
 #               rotating the candidate lists makes that example differ
@@ -164,6 +163,7 @@ def rot(seq):
     return seq[k:] + seq[:k]
 
 
+@st.composite
 def plans(draw, api, nsweeps, max_setup=2, family=()):
     names = rot(s.name for s in C.specs_for(api))
     if not names:
@@ -241,7 +241,9 @@ def psy_cases(draw):
     api = draw(st.sampled_from(rot([C.LFRIC, C.GOCEAN])))
     fname = draw(st.sampled_from(rot(PSY_FILES[api])))
     dist_mem = draw(st.booleans())
-    plan = draw(plans(api, 5))
+    # mostly the transformations written for this API
+    family = [s.name for s in C.specs_for(api) if C.GENERIC not in s.apis]
+    plan = draw(plans(api, 5, family=family))
     return {"kind": "psy", "api": api, "file": fname, "dm": dist_mem, **plan}
 
 
